@@ -256,6 +256,45 @@ func runC19(c *Ctx) {
 	}
 	c.R.RequireMin("R19.3", "accesses to ClassifierBackend.results in tasks", nAcc, 2)
 
+	// ---- R19.10 what is recorded for a file is built from that file's matches -----------
+	// every value appended to the result list is a LicenseType built by a composite literal of this call (whose fields
+	// R19.1 ties to the match and to the file name) - not an element fetched from somewhere else (a cache of what was found
+	// for another file with the same contents carries that file's name)
+	{
+		nApp := 0
+		for _, f := range pkgFuncs(p, backendPkg) {
+			for _, call := range core.CallsIn(f) {
+				cv, ok := call.(*ssa.Call)
+				if !ok {
+					continue
+				}
+				bi, ok := cv.Call.Value.(*ssa.Builtin)
+				if !ok || bi.Name() != "append" || len(cv.Call.Args) != 2 {
+					continue
+				}
+				ld, ok := cv.Call.Args[0].(*ssa.UnOp)
+				if !ok {
+					continue
+				}
+				fa, ok := ld.X.(*ssa.FieldAddr)
+				if !ok || core.FieldName(fa) != resultsField || !strings.HasSuffix(core.TypeName(fa.X.Type()), "backend.ClassifierBackend") {
+					continue
+				}
+				nApp++
+				els := varargElems(cv.Call.Args[1])
+				okEl := len(els) > 0
+				for _, el := range els {
+					if _, isLit := core.Unspill(el).(*ssa.Alloc); !isLit {
+						okEl = false
+					}
+				}
+				c.R.Check(okEl, "R19.10", core.ShortFn(f)+": what is appended to the result list is a result built in this call", p.Pos(cv.Pos()), "a LicenseType composite literal",
+					"the result list is extended by values that were not built from this file's matches (a slice or an element taken from elsewhere): a file can be reported under another file's name, or not at all")
+			}
+		}
+		c.R.RequireMin("R19.10", "appends to the result list", nApp, 1)
+	}
+
 	// ---- R19.4 task fan-out -----------------------------------------------------------
 	checkFanOut(c, p)
 
